@@ -57,6 +57,13 @@ type Check struct {
 	// Finish, if set, runs in the parent after all shards were merged; it may
 	// add derived counters or violations that need the global view.
 	Finish func(p *Merged)
+	// RaceLog: workers run with GORACE=log_path=... and VERIF_RACE_LOG set, so
+	// that the check can attribute race reports to executions.
+	RaceLog bool
+	// ExtraID: after the own shards, run check ExtraID of the binary named by
+	// $VERIF_EXTRA_BIN as one more shard and merge its result (used to combine a
+	// plain and a scheduler-variant part under one property).
+	ExtraID string
 }
 
 var registry = map[string]*Check{}
@@ -374,6 +381,16 @@ func runWorker(ck *Check, tier string, shard, n int, trace string) workerOutcome
 	if trace != "" {
 		cmd.Env = append(cmd.Env, "VERIF_TRACE="+trace)
 	}
+	if ck.RaceLog {
+		dir := filepath.Join(verifDir(), ".build", "race")
+		os.MkdirAll(dir, 0o755)
+		lp := filepath.Join(dir, fmt.Sprintf("%s-%d", ck.ID, shard))
+		old, _ := filepath.Glob(lp + ".*")
+		for _, o := range old {
+			os.Remove(o)
+		}
+		cmd.Env = append(cmd.Env, "GORACE=log_path="+lp+" halt_on_error=0", "VERIF_RACE_LOG="+lp, "GOMAXPROCS=1")
+	}
 	var so, se bytes.Buffer
 	cmd.Stdout = &so
 	cmd.Stderr = &se
@@ -391,6 +408,35 @@ func runWorker(ck *Check, tier string, shard, n int, trace string) workerOutcome
 	}
 	if o.res == nil && o.err == nil {
 		o.err = fmt.Errorf("worker produced no result")
+	}
+	return o
+}
+
+// runExtra runs `$VERIF_EXTRA_BIN <ExtraID> <tier>` (a complete parent run of
+// another variant binary) and converts its evidence into a shard result.
+func runExtra(ck *Check, tier string) workerOutcome {
+	bin := os.Getenv("VERIF_EXTRA_BIN")
+	if bin == "" {
+		r := shardResult{Counters: map[string]int64{}, Exhaustive: false, Caps: []string{"extra variant binary unavailable: " + ck.ExtraID + " part skipped"}}
+		return workerOutcome{res: &r}
+	}
+	cmd := exec.Command(bin, ck.ExtraID, tier)
+	cmd.Env = append(os.Environ(), "VERIF_AS_SHARD=1")
+	var so, se bytes.Buffer
+	cmd.Stdout = &so
+	cmd.Stderr = &se
+	err := cmd.Run()
+	o := workerOutcome{stderr: tail(se.String(), 4000)}
+	for _, line := range strings.Split(so.String(), "\n") {
+		if strings.HasPrefix(line, "MERGED ") {
+			var r shardResult
+			if e := json.Unmarshal([]byte(line[7:]), &r); e == nil {
+				o.res = &r
+			}
+		}
+	}
+	if o.res == nil {
+		o.err = fmt.Errorf("extra variant run failed: %v", err)
 	}
 	return o
 }
@@ -414,7 +460,17 @@ func parentMain(ck *Check, tier string) int {
 		}
 	}
 	outs := make([]workerOutcome, n)
+	if ck.ExtraID != "" {
+		outs = make([]workerOutcome, n+1)
+	}
 	var wg sync.WaitGroup
+	if ck.ExtraID != "" {
+		wg.Add(1)
+		go func() {
+			defer wg.Done()
+			outs[n] = runExtra(ck, tier)
+		}()
+	}
 	for i := 0; i < n; i++ {
 		wg.Add(1)
 		go func(i int) {
@@ -495,6 +551,18 @@ func parentMain(ck *Check, tier string) int {
 		ck.Finish(m)
 	}
 
+	if os.Getenv("VERIF_AS_SHARD") != "" {
+		r := shardResult{Counters: m.Counters, Bounds: m.Bounds, Caps: m.Caps, Samples: m.Samples, ViolTotal: m.ViolTotal, Exhaustive: m.Exhaustive}
+		for _, v := range m.Viol {
+			r.Viol = append(r.Viol, v)
+		}
+		for s := range m.Sites {
+			r.Sites = append(r.Sites, s)
+		}
+		out, _ := json.Marshal(r)
+		fmt.Println("MERGED " + string(out))
+		return 0
+	}
 	os.RemoveAll(filepath.Join(verifDir(), "replays", ck.ID))
 	// Known findings.
 	kf := loadKnown()
